@@ -305,6 +305,21 @@ func genWorkload(seed int64, nblocks int) []block {
 			bl.Txs = append(bl.Txs, plain(op{K: "authRemove", U: authLast, C: authNext - 1}))
 			authLast = -1
 		}
+		// x/tokenfactory (scripted): user 2 creates a denomination, mints, and force-transfers between ordinary accounts
+		// early and every 9 blocks (the module walks its list of protected module accounts there, which creates the
+		// module accounts that do not exist yet); user 1 hands the administration of a second one to user 3, whose
+		// mints must succeed and user 1's fail, before and after every import.  (An administration cannot be renounced
+		// by transaction in this version: MsgChangeAdmin.ValidateBasic refuses the empty address.)
+		switch {
+		case b == 1:
+			bl.Txs = append(bl.Txs, plain(op{K: "tfCreateX", U: 1, A: 0}), plain(op{K: "tfCreateX", U: 2, A: 1}))
+		case b == 2:
+			bl.Txs = append(bl.Txs, plain(op{K: "tfHandOver", U: 1, V: 3}), plain(op{K: "tfMintX", U: 2, V: 2, A: 1, B: 100000}))
+		case b == 3 || b%9 == 5:
+			bl.Txs = append(bl.Txs, plain(op{K: "tfForceX", U: 2, V: 3, B: int64(10 + b)}))
+		case b%7 == 4:
+			bl.Txs = append(bl.Txs, plain(op{K: "tfMintX", U: 1, V: 1, A: 0, B: 5}), plain(op{K: "tfMintX", U: 3, V: 1, A: 0, B: 7}))
+		}
 		if lbpPid > 0 && b > 8 && b%6 == 3 { // trades on it for the rest of the history (on replicas and importers alike)
 			bl.Txs = append(bl.Txs, plain(op{K: "swap", U: b % nUsers, D: iUosmo, E: iEth, A: int64(500 + b), C: lbpPid}))
 		}
@@ -968,6 +983,10 @@ func (n *node) track(tx txT, ok, anteFailed bool) {
 	case ok:
 		for _, o := range tx.Ops {
 			switch o.K {
+			case "tfForceX":
+				n.cnt["factoryForceTransfers"]++
+			case "tfHandOver":
+				n.cnt["factoryAdminsChanged"]++
 			case "authAdd":
 				n.cnt["authenticatorsAdded"]++
 			case "authRemove":
@@ -1058,6 +1077,14 @@ func (n *node) msgOf(o op) sdk.Msg {
 		return &smartaccounttypes.MsgAddAuthenticator{Sender: u.String(), AuthenticatorType: "SignatureVerification", Data: n.users[o.U].priv.PubKey().Bytes()}
 	case "authRemove":
 		return &smartaccounttypes.MsgRemoveAuthenticator{Sender: u.String(), Id: uint64(o.C)}
+	case "tfCreateX":
+		return tftypes.NewMsgCreateDenom(u.String(), []string{"ren", "frc"}[o.A%2])
+	case "tfHandOver":
+		return tftypes.NewMsgChangeAdmin(u.String(), fmt.Sprintf("factory/%s/ren", u.String()), v.String())
+	case "tfMintX": // sender U mints the denomination created by V
+		return tftypes.NewMsgMint(u.String(), sdk.NewCoin(fmt.Sprintf("factory/%s/%s", v.String(), []string{"ren", "frc"}[o.A%2]), osmomath.NewInt(o.B)))
+	case "tfForceX":
+		return tftypes.NewMsgForceTransfer(u.String(), sdk.NewCoin(fmt.Sprintf("factory/%s/frc", u.String()), osmomath.NewInt(o.B)), u.String(), v.String())
 	case "tfCreate":
 		sub := fmt.Sprintf("tok%d", o.A%7)
 		n.tf = append(n.tf, fmt.Sprintf("factory/%s/%s", u.String(), sub))
